@@ -485,14 +485,15 @@ class Selector(Composite):
             return
 
         # starting point
-        if self.memory:
-            assert self.current_child is not None  # should never be true, help mypy out
+        if self.memory and self.current_child is not None:
             index = self.children.index(self.current_child)
             # clear out preceding status' - not actually necessary but helps
             # visualise the case of memory vs no memory
             for child in itertools.islice(self.children, None, index):
                 child.stop(common.Status.INVALID)
         else:
+            # no memory, or the child that was running has been removed since the
+            # last tick, in which case every priority is re-evaluated
             index = 0
 
         # actual work
@@ -604,8 +605,23 @@ class Sequence(Composite):
                     child.stop(common.Status.INVALID)
             self.initialise()  # user specific initialisation
         elif self.memory and common.Status.RUNNING:
-            assert self.current_child is not None  # should never be true, help mypy out
-            index = self.children.index(self.current_child)
+            if self.current_child is None:
+                # the child that was running has been removed since the last tick, pick up
+                # at the first child that has not yet succeeded in this round
+                index = next(
+                    (
+                        i
+                        for i, child in enumerate(self.children)
+                        if child.status != common.Status.SUCCESS
+                    ),
+                    len(self.children),
+                )
+                if self.children:
+                    self.current_child = self.children[
+                        min(index, len(self.children) - 1)
+                    ]
+            else:
+                index = self.children.index(self.current_child)
         elif not self.memory and common.Status.RUNNING:
             self.current_child = self.children[0] if self.children else None
         else:
